@@ -97,6 +97,9 @@ func setupObjects() error {
 	if err := work.SetupPackager(); err != nil {
 		return err
 	}
+	if err := c06Setup(); err != nil {
+		return err
+	}
 	c, _ := work.LoadCorpus()
 	for _, cf := range c {
 		ok := false
@@ -140,7 +143,33 @@ func drawSource(r *sim.Run) *objSource {
 		r.Event("src-built")
 		return src
 	}
+	if t.Chance(150) {
+		if src := drawBuiltSource(r); src != nil {
+			return src
+		}
+	}
 	cf := objCorpus[t.Draw(len(objCorpus))]
+	data := cf.Data
+	name := cf.Name
+	if t.Chance(300) {
+		// a well-formed but unusual layout of the same file: unit transport with repaired sizes
+		if units, err := work.ParseUnits(data); err == nil {
+			ops := work.Transport(r, &units, 1+t.Draw(2), t.Chance(400), []string{"dup", "splice", "swap", "move", "largesize", "drop"})
+			nd := work.Serialize(units, true)
+			okDec := false
+			func() {
+				defer func() { recover() }()
+				if _, err := decodeMem(nd); err == nil {
+					okDec = true
+				}
+			}()
+			if okDec {
+				data = nd
+				name = fmt.Sprintf("%s+transport%v", cf.Name, ops)
+				r.Probe("object-source-transported")
+			}
+		}
+	}
 	viaSR := t.Bool()
 	boxTree := t.Bool()
 	opt := t.Chance(300)
@@ -151,13 +180,13 @@ func drawSource(r *sim.Run) *objSource {
 	var f *mp4.File
 	var err error
 	if viaSR {
-		r.Guard("DecodeFileSR", func() { f, err = mp4.DecodeFileSR(bits.NewFixedSliceReader(cf.Data), opts...) })
+		r.Guard("DecodeFileSR", func() { f, err = mp4.DecodeFileSR(bits.NewFixedSliceReader(data), opts...) })
 	} else {
-		r.Guard("DecodeFile", func() { f, err = decodeMem(cf.Data, opts...) })
+		r.Guard("DecodeFile", func() { f, err = decodeMem(data, opts...) })
 	}
 	if err != nil {
 		// the two paths disagree on acceptance: C03's business; here just take the other one
-		r.Guard("DecodeFile", func() { f, err = decodeMem(cf.Data, opts...) })
+		r.Guard("DecodeFile", func() { f, err = decodeMem(data, opts...) })
 		if err != nil {
 			panic(sim.HarnessAbort{Msg: "corpus file stopped decoding: " + cf.Name + ": " + err.Error()})
 		}
@@ -171,8 +200,54 @@ func drawSource(r *sim.Run) *objSource {
 			}
 		}
 	}
-	src := &objSource{desc: fmt.Sprintf("%s(viaSR=%v boxTree=%v optimize=%v)", cf.Name, viaSR, boxTree, opt), bytes: cf.Data, file: f, optimize: opt}
+	src := &objSource{desc: fmt.Sprintf("%s(viaSR=%v boxTree=%v optimize=%v)", name, viaSR, boxTree, opt), bytes: data, file: f, optimize: opt}
 	src.nodes = collectNodes(cf.Name, f)
-	r.Event("src-corpus", int(sim.HashString(cf.Name)&0xffff), btoi(viaSR), btoi(boxTree), btoi(opt))
+	r.Event("src-corpus", int(sim.HashString(name)&0xffff), btoi(viaSR), btoi(boxTree), btoi(opt))
+	return src
+}
+
+// drawBuiltSource: objects built through other public constructors than the packager's: an init segment from a
+// seeded AddEmptyTrack/Set*Descriptor history (all seven descriptor kinds), or an encrypted production
+// (sinf/schm/tenc in the init; senc/saiz/saio in the fragments) decoded from its encoding.
+func drawBuiltSource(r *sim.Run) *objSource {
+	t := r.T
+	if t.Bool() {
+		var init *mp4.InitSegment
+		var err error
+		r.Guard("init history", func() { init, _, err = c19Build(r) })
+		if err != nil || init == nil {
+			return nil
+		}
+		src := &objSource{desc: "built-init(all descriptor kinds)", built: true}
+		src.nodes = append(src.nodes, node{desc: "c19:Init", obj: init, boxSeq: true})
+		collectBoxes("c19:Init", init.Children, 1, &src.nodes)
+		r.Probe("object-source-init-history")
+		return src
+	}
+	if len(c06Sources) == 0 {
+		return nil
+	}
+	rnd := t.Sub()
+	key := make([]byte, 16)
+	rnd.Fill(key)
+	scheme := []string{"cenc", "cbcs"}[t.Draw(2)]
+	var p *c06Prod
+	var err error
+	r.Guard("producer+encryptor", func() { p, err = c06Produce(r, scheme, key, randIV(t, rnd)) })
+	if err != nil || p == nil {
+		return nil
+	}
+	stream := append([]byte(nil), p.encInit...)
+	for _, s := range p.encSegs {
+		stream = append(stream, s...)
+	}
+	var f *mp4.File
+	r.Guard("DecodeFile(encrypted)", func() { f, err = decodeMem(stream) })
+	if err != nil || f == nil {
+		return nil
+	}
+	src := &objSource{desc: "encrypted-production(" + scheme + ")", bytes: stream, file: f}
+	src.nodes = collectNodes("enc", f)
+	r.Probe("object-source-encrypted")
 	return src
 }
